@@ -18,7 +18,9 @@
 (* A request on the wire is described by                                   *)
 (*   surface     "admin-http-global" | "admin-http-selector" |             *)
 (*               "admin-http-scoped" | "mcp-proxy-global" |                *)
-(*               "mcp-proxy-scoped"                                        *)
+(*               "mcp-proxy-scoped" | "mcp-direct" (the tool opens the     *)
+(*               SQLite file itself; same argument rules as the proxy      *)
+(*               tools, the managed-route rule from the configuration)     *)
 (*   kind        "ids" (by-id mutation) | "filter" (by-filter mutation) |  *)
 (*               "list" (messages listing) | "dlq" (dead-letter listing)   *)
 (*   form        "global" (route selector or none) | "selector"            *)
@@ -35,9 +37,9 @@ ApiMaxIds   == 1000
 ApiMaxLimit == 1000
 ApiDefLimit == 100
 
-IsMcpSurface(s)  == s \in {"mcp-proxy-global", "mcp-proxy-scoped"}
+IsMcpSurface(s)  == s \in {"mcp-proxy-global", "mcp-proxy-scoped", "mcp-direct"}
 IsHttpSurface(s) == s \in {"admin-http-global", "admin-http-selector", "admin-http-scoped"}
-ApiSurfaces == {"admin-http-global", "admin-http-selector", "admin-http-scoped", "mcp-proxy-global", "mcp-proxy-scoped"}
+ApiSurfaces == {"admin-http-global", "admin-http-selector", "admin-http-scoped", "mcp-proxy-global", "mcp-proxy-scoped", "mcp-direct"}
 ApiKinds    == {"ids", "filter", "list", "dlq"}
 
 \* Mutations need an audit reason (header X-Hookaido-Audit-Reason / argument `reason`).
@@ -66,6 +68,14 @@ StateRefuses(kind, st, allowed) == kind = "filter" /\ st # "" /\ st \notin allow
 \* refused when it names a managed route, or names no route while managed routes exist.
 SelectorRefuses(kind, form, rt, managed) ==
   kind = "filter" /\ form = "global" /\ ((rt = "" /\ managed # {}) \/ rt \in managed)
+
+\* Scoped managed operations can be restricted to listed actors (defaults.publish_policy actor_allow / actor_prefix):
+\* with an actor the policy does not admit, a by-filter mutation in a scoped form must be refused; a by-id mutation is
+\* refused when it touches a message of a managed route in a state the operation is defined for - which the layer may
+\* decide (the rule below lets it refuse any by-id mutation while managed routes exist, and never demands it).
+ActorMustRefuse(kind, form, actorOK) == kind = "filter" /\ form # "global" /\ ~actorOK
+ActorMayRefuse(kind, form, actorOK, managed) ==
+  ~actorOK /\ managed # {} /\ (kind = "ids" \/ (kind = "filter" /\ form # "global"))
 
 \* What the layer MAY refuse: every request-validation case above.
 Refuses(surface, kind, form, audit, absent, lim, tids, st, allowed, rt, managed) ==
